@@ -10,12 +10,15 @@ RULE = ('per (adapter, graphics mode, active/visible page, viewport) configurati
         'graph_view[...] with arbitrary index expressions) with coordinates from a boundary set around the '
         'viewport and screen edges (+-1, +-2, +-32767) plus PRNG values are compared cell-for-cell with the Lean '
         'model; random statement histories (VIEW/VIEW SCREEN/WINDOW/SCREEN ,,a,v/PSET/PRESET/LINE/CIRCLE with '
-        'arcs and aspect/PAINT with tiles/DRAW/PUT) are judged by the pixel-buffer diff of all pages; '
+        'arcs and aspect/PAINT with tiles/DRAW/PUT) are judged by the pixel-buffer diff of all pages; further '
+        'histories switch the video MODE between the multi-page modes of ega/vga/tandy/pcjr/cga (SCREEN m with the '
+        'page arguments omitted, repeated or changed, SCREEN 0 in between) and draw right after each switch; '
         'one case = one executed statement; non-trivial = it changed at least one pixel or was rejected')
 EXPLANATION = ('theorems (PcbV.Props.C30): every cell assigned by graph_view[...] = attr lies in the viewport rectangle for '
                'single pixels and for slices whose stop is not wrapped negative, each call site (LINE, B, BF, CIRCLE, '
                'ellipse, PAINT interval, PUT, VIEW fill/border) establishes that precondition for all integer '
-               'arguments, only the active page changes, text mode gives Illegal function call; correspondence: '
+               'arguments, only the active page changes, a mode switch leaves the viewport on the active page, text mode '
+               'gives Illegal function call; correspondence: '
                'changed-cell sets of the real Session against the compiled model; oracle: every changed cell of every '
                'page lies in the viewport of the active page as tracked from the issued VIEW statements')
 TRUSTED_BASE = ['models PcbV.Model.Viewport / PcbV.Model.Draw are hand transcriptions of graphics.py GraphicsViewPort and '
@@ -82,12 +85,9 @@ class Runner(object):
         out = self.session.execute(b'SCREEN %d' % mode)
         if out.strip():
             raise RuntimeError('SCREEN %d on %s: %r' % (mode, video, out))
-        m = self.display.mode
-        self.text = bool(m.is_text_mode)
-        self.W, self.H, self.num_pages = m.pixel_width, m.pixel_height, m.num_pages
-        self.num_attr = 0 if self.text else self.gfx._num_attr
-        # Tandy SCREEN 6 stores sprites at twice the width
-        self.wf = 1 if self.text else getattr(m.sprite_builder, 'width_factor', 1)
+        self.online = None
+        self.cur_mode = mode
+        self.set_geometry(self.geometry())
         # independent bookkeeping of the state the property talks about
         self.broken = False
         self.apage = 0
@@ -97,6 +97,17 @@ class Runner(object):
 
     def close(self):
         self.session.close()
+
+    def geometry(self):
+        """(text mode, W, H, pages, attributes, sprite width factor) of the implementation's current video mode."""
+        m = self.display.mode
+        text = bool(m.is_text_mode)
+        # Tandy SCREEN 6 stores sprites at twice the width
+        return (text, m.pixel_width, m.pixel_height, m.num_pages, 0 if text else self.gfx._num_attr,
+                1 if text else getattr(m.sprite_builder, 'width_factor', 1))
+
+    def set_geometry(self, geom):
+        self.text, self.W, self.H, self.num_pages, self.num_attr, self.wf = geom
 
     # --- snapshots
 
@@ -152,8 +163,14 @@ class Runner(object):
         self._err = err
 
     def on_post(self, k):
-        changed = self.sync(record=True)
-        res = {'err': self._err, 'changed': changed}
+        e = self.entries[k]
+        if e.get('kind') == 'mode':
+            # a mode switch replaces (and erases) all pages: nothing to diff; the shadow is rebuilt afterwards
+            changed = {}
+            self.shadow = None
+        else:
+            changed = self.sync(record=True)
+        res = {'err': self._err, 'changed': changed, 'geom': self.geometry()}
         if self.text:
             res['text_same'] = (self.text_snapshot() == self._tbefore)
         gv = self.gfx.graph_view
@@ -162,6 +179,9 @@ class Runner(object):
             res['abs'] = bool(gv._absolute)
         self.results.append(res)
         self._cur = None
+        if self.online is not None:
+            # judge at once: the bookkeeping (geometry included) must follow the statements as they run
+            self.online(k, e, res)
 
     # --- program
 
@@ -385,6 +405,33 @@ def judge(ctx, r, e, res, where):
     ctx.count('result:' + ('err %d' % err if err is not None else 'ok'))
     ncells = sum(b - a + 1 for runs in changed.values() for (_, a, b) in runs)
     ctx.count('changed:none' if ncells == 0 else 'changed:some')
+    if kind == 'mode':
+        # SCREEN m[,,a[,v]]: on success a new mode with the viewport and window reset; the active page is the one
+        # given, else the one that was active (PCjr: page 0 if the new mode has too few pages)
+        if err is None:
+            same = (e['mode'] == r.cur_mode)
+            r.cur_mode = e['mode']
+            r.set_geometry(res['geom'])
+            if e.get('apage') is not None:
+                r.apage = e['apage']
+            elif r.apage >= r.num_pages:
+                r.apage = 0
+            if same and 'rect' in res:
+                # SCREEN with the current mode number may or may not reinitialise the mode (colorswitch default);
+                # either way nothing is drawn: take the viewport as reported
+                r.rect, r.absolute = tuple(res['rect']), bool(res['abs'])
+            else:
+                r.rect, r.absolute, r.window = (0, 0, r.W - 1, r.H - 1), False, None
+                if 'rect' in res and tuple(res['rect']) != tuple(r.rect):
+                    ctx.fail('viewport-state:SCREEN', case, 'viewport is %r after the mode switch, expected %r'
+                             % (res['rect'], r.rect))
+        return
+    if kind == 'page':
+        if err is None:
+            r.apage = e['apage']
+        if changed:
+            ctx.fail('page-switch-changed-pixels', case, 'SCREEN ,,a,v changed pixels on pages %s' % sorted(changed))
+        return
     if r.text:
         if kind == 'gfx' or kind == 'view':
             if err != 5:
@@ -395,12 +442,6 @@ def judge(ctx, r, e, res, where):
                          'text mode: statement changed the screen (pixels of pages %s)' % sorted(changed))
         return
     if kind == 'free':
-        return
-    if kind == 'page':
-        if err is None:
-            r.apage = e['apage']
-        if changed:
-            ctx.fail('page-switch-changed-pixels', case, 'SCREEN ,,a,v changed pixels on pages %s' % sorted(changed))
         return
     # allowed region on the active page
     x0, y0, x1, y1 = r.rect
@@ -863,6 +904,131 @@ def text_part(ctx, video):
         r.close()
 
 
+# ---------------------------------------------------------------------------------------------------------
+# histories with video mode switches between multi-page modes (oracle only)
+
+# (W, H, pages, attributes) used for *generating* coordinates and page numbers only; the oracle's bookkeeping takes the
+# geometry from the mode the implementation reports after each switch
+MODE_GEOM = {
+    'ega': {0: (640, 350, 4, 16), 1: (320, 200, 8, 4), 2: (640, 200, 8, 2), 7: (320, 200, 32, 16), 8: (640, 200, 16, 16),
+            9: (640, 350, 8, 16)},
+    'vga': {0: (720, 400, 4, 16), 1: (320, 200, 8, 4), 2: (640, 200, 8, 2), 7: (320, 200, 32, 16), 8: (640, 200, 16, 16),
+            9: (640, 350, 8, 16)},
+    'tandy': {0: (640, 225, 4, 16), 1: (320, 200, 8, 4), 2: (640, 200, 8, 2), 3: (160, 200, 8, 16), 4: (320, 200, 8, 4),
+              5: (320, 200, 4, 16), 6: (640, 200, 4, 4)},
+    'pcjr': {0: (640, 200, 4, 16), 1: (320, 200, 8, 4), 2: (640, 200, 8, 2), 3: (160, 200, 8, 16), 4: (320, 200, 8, 4),
+             5: (320, 200, 4, 16), 6: (640, 200, 4, 4)},
+    'cga': {0: (640, 200, 4, 16), 1: (320, 200, 8, 4), 2: (640, 200, 8, 2)},
+}
+MODE_START = {'ega': 7, 'vga': 9, 'tandy': 5, 'pcjr': 4, 'cga': 1}
+
+
+class GenState(object):
+    """What the generator assumes about the session while it writes a history (never used by the oracle)."""
+
+    def __init__(self, video, mode, apage=0):
+        self.video = video
+        self.set_mode(mode)
+        self.apage = apage
+
+    def set_mode(self, mode):
+        self.mode = mode
+        self.W, self.H, self.num_pages, self.num_attr = MODE_GEOM[self.video][mode]
+        self.rect, self.absolute, self.window = (0, 0, self.W - 1, self.H - 1), False, None
+
+
+def gen_mode_history(rng, video, start_mode, n_segments, seg_len, paints):
+    """Segments of drawing statements separated by SCREEN mode switches.  The switch keeps, repeats or changes the
+    active/visible page arguments; the first drawing statements after it go to whatever page is then active."""
+    st = GenState(video, start_mode)
+    modes = sorted(m for m in MODE_GEOM[video] if m != 0)
+    entries = []
+    for seg in range(n_segments):
+        if seg > 0 or rng.random() < 0.5:
+            k = rng.random()
+            new_mode = rng.choice(modes) if k < 0.92 else 0
+            npg = MODE_GEOM[video][new_mode][2]
+            form = rng.random()
+            a = v = None
+            if form < 0.45:
+                text = 'SCREEN %d' % new_mode                          # pages kept implicitly
+            elif form < 0.6:
+                a = st.apage
+                text = 'SCREEN %d,,%d' % (new_mode, a)                  # active page repeated
+            elif form < 0.75:
+                a, v = st.apage, rng.randrange(min(npg, 4))
+                text = 'SCREEN %d,,%d,%d' % (new_mode, a, v)
+            elif form < 0.95:
+                a, v = rng.randrange(min(npg, 4)), rng.randrange(min(npg, 4))
+                text = 'SCREEN %d,,%d,%d' % (new_mode, a, v)
+            else:
+                a = npg                                                  # rejected: no such page
+                text = 'SCREEN %d,,%d' % (new_mode, a)
+            same = (new_mode == st.mode)
+            entries.append({'text': text, 'kind': 'mode', 'mode': new_mode, 'apage': a, 'same_mode': same})
+            ok = (a if a is not None else st.apage) < npg or (a is None and video == 'pcjr')
+            if ok:
+                keep = st.apage if a is None else a
+                if not same:
+                    st.set_mode(new_mode)
+                st.apage = keep if keep < st.num_pages else 0
+        if st.mode != 0:
+            # drawing right after the switch, before any page statement: a filled box, and the sprites are fetched again
+            # in the new mode's format (GET changes nothing)
+            entries.append({'text': 'LINE (0,0)-(79,29),%d,BF' % rng.randrange(1, st.num_attr), 'kind': 'gfx'})
+            entries.append({'text': 'GET (0,0)-(8,6),A%', 'kind': 'gfx'})
+            entries.append({'text': 'GET (0,0)-(39,29),B%', 'kind': 'gfx'})
+        if rng.random() < 0.4 and st.num_pages > 1:
+            a, v = rng.randrange(min(st.num_pages, 4)), rng.randrange(min(st.num_pages, 4))
+            entries.append({'text': 'SCREEN ,,%d,%d' % (a, v), 'kind': 'page', 'apage': a})
+            st.apage = a
+        body = gen_history(rng, st, seg_len, paints)
+        for e in body:
+            entries.append(e)
+            if e['kind'] == 'page' and e['apage'] < st.num_pages:
+                st.apage = e['apage']
+    return entries
+
+
+def run_online(ctx, r, entries, where, setup):
+    """Run the entries and judge each one as soon as it has run (needed when the video mode changes on the way)."""
+    def online(k, e, res):
+        judge(ctx, r, e, res, dict(where, index=k))
+        ctx.case((r.video, 'modes', where.get('hist'), k, e['text']))
+    r.online = online
+    try:
+        results = r.run(entries, setup=setup)
+    finally:
+        r.online = None
+    if results and 'exc' in results[-1]:
+        k = min(len(results) - 1, len(entries) - 1)
+        judge(ctx, r, entries[k], results[-1], dict(where, index=k))
+    return results
+
+
+def mode_part(ctx, video, n_hist, n_segments, seg_len, n_paint):
+    rng = ctx.rng
+    start = MODE_START[video]
+    for hi in range(n_hist):
+        r = Runner(video, start)
+        try:
+            ctx.count('modes:%s' % video)
+            paints = [n_paint]
+            hist = gen_mode_history(rng, video, start, n_segments, seg_len, paints)
+            where = {'video': video, 'mode': start, 'modes': True, 'hist': hi, 'program': [e['text'] for e in hist],
+                     'meta': hist}
+            results = run_online(ctx, r, hist, where, setup=['DIM A%(120): DIM B%(700)'])
+            for e in hist:
+                if e['kind'] == 'mode':
+                    ctx.count('modeswitch:%s' % ('same' if e['same_mode'] else 'pages-kept' if e['apage'] is None
+                                                 else 'pages-given'))
+            if hi == 0:
+                ctx.sample({'config': '%s mode switches' % video, 'history': [e['text'] for e in hist[:8]],
+                            'errors': [x.get('err') for x in results[:8]]})
+        finally:
+            r.close()
+
+
 def run(ctx):
     quick = ctx.quick
     configs = CONFIGS_QUICK if quick else CONFIGS_ALL
@@ -874,6 +1040,12 @@ def run(ctx):
         else:
             config_part(ctx, video, mode, n_exact=150, n_direct=300, n_hist=10, hist_len=60, n_paint=25)
         ctx.log('%s SCREEN %d done' % (video, mode))
+    for video in ['ega', 'vga', 'tandy', 'pcjr', 'cga']:
+        if quick:
+            mode_part(ctx, video, n_hist=2, n_segments=5, seg_len=6, n_paint=1)
+        else:
+            mode_part(ctx, video, n_hist=12, n_segments=10, seg_len=10, n_paint=6)
+        ctx.log('%s mode switches done' % video)
 
 
 def replay(ctx, payload):
@@ -909,6 +1081,13 @@ def replay(ctx, payload):
                 sub.fail('direct-exception:' + op, case, 'primitive raised %s' % type(e).__name__)
             changed = r.sync(record=True)
             judge(sub, r, {'text': 'direct ' + ' '.join(toks[8:]), 'kind': 'gfx'}, {'err': None, 'changed': changed}, case)
+        finally:
+            r.close()
+    elif case.get('modes'):
+        r = Runner(case['video'], case['mode'])
+        try:
+            run_online(sub, r, case['meta'], {k: v for k, v in case.items() if k not in ('meta', 'program')},
+                       setup=['DIM A%(120): DIM B%(700)'])
         finally:
             r.close()
     elif 'meta' in case:
